@@ -4,6 +4,8 @@
 -/
 import Fir.Model.ProtoAlpha
 import Fir.Model.ProtoConvert
+import Fir.Model.ProtoView
+import Fir.Model.ProtoGeom
 open Fir
 
 def handleLine (line : String) : String :=
@@ -18,6 +20,12 @@ def handleLine (line : String) : String :=
     | "convert" => handleConvert fs
     | "convert-rt" => handleConvertRt fs
     | "convert-reject" => handleConvertReject fs
+    | "split" => handleSplit fs
+    | "split2" => handleSplit2 fs
+    | "ccb" => handleCcb fs
+    | "cropctor" => handleCropCtor fs
+    | "cropf64" => handleCropF64 fs
+    | "ctor" => handleCtor fs
     | "ping" => "OK pong"
     | _ => "BAD-REQUEST unknown command " ++ cmd
 
